@@ -98,8 +98,11 @@ def check(tier):
                         tot[k] += r[k]
                     for f in r["fails"]:
                         bad = [x for x in f["fails"] if x["prop"] not in ("INFO",)]
-                        if any(x["prop"] == "INFRA" for x in bad):
-                            raise Infra("continuity failure in a concurrent scenario (a shared register was written?): %s" % json.dumps({k: v for k, v in f.items()}))
+                        if any(x["prop"] == "INFRA" and x["tag"] != "continuity" for x in bad):
+                            raise Infra("trace of a concurrent scenario not understood: %s" % json.dumps({k: v for k, v in f.items()}))
+                        # a continuity failure here means that an object changed between two calls of one goroutine without that
+                        # goroutine writing it: the goroutine-private registers cannot, so a SHARED (read-only) argument was
+                        # written by a call of some goroutine -- "shared arguments are only read" is violated
                         if bad:
                             f["scenario"] = scn
                             fails.append(f)
